@@ -76,6 +76,19 @@ def programs():
     # evaluated, validated and keyed - so what it needs is part of what the template needs
     add("template-unreferenced-parameter", prog({"k": "tuple", "items": [{"k": "tmpl", "text": "t{C}", "params": [["r", O("B")]]}, DS(1)]},
                                                 d1={"args": [["banner", O("E", dk="spec", dv={"k": "tmpl", "text": "{:p:}", "params": [["p", O("A", dk="const", dv="a")], ["q", O("S.Y")]]})]]}))
+    # ONE evaluatable reached many times within a single keys() / fingerprint() call, each time under another derived
+    # dictionary (Map elements, sibling derivatives): what it reads under the LAST of them counts as much as under the first
+    add("map-many-elements-key-sets-differ", prog({"k": "tuple", "items": [
+        {"k": "apply", "n": 51, "fn": "f1", "src": {"k": "map", "body": {"k": "switch", "disp": "D", "table": [["x", O("A", dk="const", dv="a-dflt")], ["y", O("B")]], "default": O("C", dk="const", dv="c-dflt")},
+                                                   "iters": [["D", O("L", dk="const", dv=["x", "x", "x", "x", "y"])]]}},
+        {"k": "tuple", "items": [DS(1, P={"D": "x"}), DS(1, P={"D": "x"}), DS(1, P={"D": "x"}), DS(1, P={"D": "x"}), DS(1, P={"D": "y"}), DS(1, P={"D": "x"}), DS(1, P={"D": "y"})]}]},
+        d1={"args": [["a", O("A", dk="const", dv=0)]], "dispatch": "D", "overloads": [["y", {"args": [["b", O("B")]]}]], "cache": "nocache"}))
+    # a dispatch whose VALUE is a tuple: a tuple alias is ONE alias (a list spells several), whichever way it is registered
+    add("tuple-valued-dispatch", prog({"k": "tuple", "items": [DS(1), DS(2)]},
+                                      d1={"args": [["a", O("A", dk="const", dv=0)]], "dispatch": {"k": "tuple", "items": [O("D", dk="const", dv="x"), O("E", dk="const", dv=1)]},
+                                          "overloads": [[{"tuple": ["x", 1]}, {"args": [["b", O("B", dk="const", dv="b")]]}], [{"tuple": ["y", 0]}, {"expr": O("C", dk="const", dv="c")}],
+                                                        [[{"tuple": ["z", 1]}, {"tuple": ["z", 0]}], {"args": []}]]},
+                                      d2={"args": [], "abstract": True, "dispatch": "D", "overloads": [[{"tuple": ["x", "y"]}, {"args": [["b", O("B", dk="const", dv="pair")]]}]]}))
     # a key that is present with a null value is PRESENT: the default (and what the default reads) plays no part
     add("null-valued-option", prog({"k": "tuple", "items": [DS(1), {"k": "cached", "spec": O("C", dk="tmpl", dv="{S.X} t")}]},
                                    d1={"args": [["a", O("A", dk="spec", dv=O("B"))], ["c", O("E", dk="spec", dv=DS(2))]]},
@@ -260,6 +273,15 @@ def dictionaries():
         {"A": 1, "AB": 2, "S": {"X": 2, "XL": "km"}},
         {"A": 1, "AB": 2, "S": {"X": 2, "XL": "mi"}},
         {"A": 1, "S": {"X": 2}},
+        {"L": ["x", "x", "x", "y"], "A": 1, "B": 2},
+        {"L": ["x", "x", "x", "y"], "A": 1, "B": 3},
+        {"L": ["x", "y", "x", "x", "x", "y", "x"], "A": 1, "B": 3},
+        {"D": "y", "E": 0, "C": 2},
+        {"D": "z", "E": 0},
+        {"D": "x", "E": 0},
+        {"D": "{A}", "A": "x"},
+        {"D": "{A}", "A": "y", "B": 5, "C": 6},
+        {"D": "{S.X}", "E": "{A}", "A": "x", "S": {"X": "y"}},
         {"L": [1, 2]},
         {"L": ["x", "y"]},
         {"L": []},
